@@ -58,3 +58,114 @@ Print Assumptions C01_unrepaired_refuted.
 Example C01_ex : wf (GEnv 3 2 20 3 (GSam 2 5 (GCar 1))) = true /\
   spec_ok (GEnv 3 2 20 3 (GSam 2 5 (GCar 1))) [4; 0; 14; 9] = true.
 Proof. vm_compute. split; reflexivity. Qed.
+
+(* ==================================================================================================================
+   TRANSLATOR TIE (source -> Coq).  gen/StimIdxGen.v is REGENERATED on every run from the current psiaudio/stim.py by
+   translate/pystim2coq.py (hook in harness/C01.py); the theorems below say that the regenerated definitions ARE the model
+   definitions the theorems above are about, and restate the main theorems over the regenerated definitions. *)
+From PV Require Import Stim.SpecTie Stim.ProofsTie.
+
+(* envelope(): the regenerated index arithmetic is the model's envelope_frag, for ALL integer inputs *)
+Theorem C01_source_envelope_tie : forall nid elb dur rise o n,
+  gen_envelope nid elb dur rise o (Some n) = envelope_frag nid elb dur rise o n.
+Proof. exact envelope_tie. Qed.
+Print Assumptions C01_source_envelope_tie.
+
+Theorem C01_source_envelope_fragment : forall nid elb dur rise o n,
+  0 <= elb -> 0 <= rise -> 2 * rise <= dur -> 0 <= o -> 0 <= n ->
+  gen_envelope nid elb dur rise o (Some n) = Some (zrange (env_at nid elb dur rise) o n).
+Proof. exact source_envelope_fragment. Qed.
+Print Assumptions C01_source_envelope_fragment.
+
+(* _sam_envelope *)
+Theorem C01_source_sam_tie : forall nid D o n, gen_sam_envelope nid D o n = sam_frag true nid D o n.
+Proof. exact sam_tie. Qed.
+Print Assumptions C01_source_sam_tie.
+
+Theorem C01_source_sam_fragment : forall nid D o n, 0 <= D -> 0 <= o -> 0 <= n ->
+  gen_sam_envelope nid D o n = zrange (sam_at nid D) o n.
+Proof. exact source_sam_fragment. Qed.
+Print Assumptions C01_source_sam_fragment.
+
+(* GateFactory.next: for EVERY record of the object's integer fields, the model's gate step is the regenerated step
+   applied to the token of the input generator (next does not read total_samples: no invariant needed) *)
+Theorem C01_source_gate_next_tie : forall st g' i n,
+  gnext all_repaired (GGate (gate_start_samples st) (gate_duration_samples st) g') (SNode (gate_offset st) i) n =
+  match gnext all_repaired g' i n with
+  | None => None
+  | Some (i', tok) => let '(st', out) := gen_gate_next st n tok in Some (SNode (gate_offset st') i', out)
+  end.
+Proof. exact gate_next_tie. Qed.
+Print Assumptions C01_source_gate_next_tie.
+
+(* EnvelopeFactory.next: the regenerated method (which calls the regenerated envelope and multiplies with the token) *)
+Theorem C01_source_env_next_tie : forall R nid rise st g' i n,
+  gnext R (GEnv nid (gate_start_samples st) (gate_duration_samples st) rise g') (SNode (gate_offset st) i) n =
+  match gnext R g' i n with
+  | None => None
+  | Some (i', tok) =>
+    match gen_env_next nid rise st n tok with
+    | None => None
+    | Some (st', out) => Some (SNode (gate_offset st') i', out)
+    end
+  end.
+Proof. exact env_next_tie. Qed.
+Print Assumptions C01_source_env_next_tie.
+
+(* FixedWaveform.next (slice, zero padding, offset update); RepeatFactory inherits it *)
+Theorem C01_source_fixed_next_tie : forall R wid len o n,
+  gnext R (GFixed wid len) (SLeaf o) n =
+  let '(st', out) := gen_fixed_next (fixed_of wid len o) n in Some (SLeaf (fixed_offset st'), out).
+Proof. exact fixed_gnext_tie. Qed.
+Print Assumptions C01_source_fixed_next_tie.
+
+Theorem C01_source_repeat_next_tie : forall R a b c d g' o w i n,
+  gnext R (GRepeat a b c d g') (SRep o w i) n =
+  let '(st', out) := gen_fixed_next (fixed_arr w o) n in Some (SRep (fixed_offset st') w i, out).
+Proof. exact repeat_gnext_tie. Qed.
+Print Assumptions C01_source_repeat_next_tie.
+
+(* SquareWaveFactory.next: the `while o < samples` loop on the model's fuel *)
+Theorem C01_source_square_next_tie : forall nid cycle on o n,
+  gnext all_repaired (GSquare nid cycle on) (SLeaf o) n =
+  let '(st', out) := gen_square_next (square_of nid cycle on o) n in Some (SLeaf (square_offset st'), out).
+Proof. exact square_gnext_tie. Qed.
+Print Assumptions C01_source_square_next_tie.
+
+Theorem C01_source_square_fragment : forall nid cycle on o n,
+  0 < cycle -> 0 <= on <= cycle -> 0 <= o -> 0 <= n ->
+  gen_square_next (square_of nid cycle on o) n = (square_of nid cycle on (o + n), zrange (square_at nid cycle on) o n).
+Proof. exact source_square_fragment. Qed.
+Print Assumptions C01_source_square_fragment.
+
+(* chunk invariance over the REGENERATED step functions: any draw history (src_*_run folds the regenerated next over the
+   chunk sizes, the gate being fed the tokens of its input generator) yields the whole-stream denotation *)
+Theorem C01_source_gate_chunk_invariant : forall start dur g' cs, wf (GGate start dur g') = true -> nonneg cs = true ->
+  exists i0 st1 i1, greset all_repaired g' = Some i0 /\
+    src_gate_run g' (gen_gate_init start dur) i0 cs = Some (st1, i1, zrange (den (GGate start dur g')) 0 (sumZ cs)).
+Proof. exact source_gate_chunk_invariant. Qed.
+Print Assumptions C01_source_gate_chunk_invariant.
+
+Theorem C01_source_env_chunk_invariant : forall nid start dur rise g' cs,
+  wf (GEnv nid start dur rise g') = true -> nonneg cs = true ->
+  exists i0 st1 i1, greset all_repaired g' = Some i0 /\
+    src_env_run nid rise g' (gen_gate_init start dur) i0 cs =
+    Some (st1, i1, zrange (den (GEnv nid start dur rise g')) 0 (sumZ cs)).
+Proof. exact source_env_chunk_invariant. Qed.
+Print Assumptions C01_source_env_chunk_invariant.
+
+Theorem C01_source_fixed_chunk_invariant : forall wid len cs, 0 <= len -> nonneg cs = true ->
+  snd (src_fixed_run (fixed_of wid len 0) cs) = zrange (den (GFixed wid len)) 0 (sumZ cs).
+Proof. exact source_fixed_chunk_invariant. Qed.
+Print Assumptions C01_source_fixed_chunk_invariant.
+
+Theorem C01_source_square_chunk_invariant : forall nid cycle on cs,
+  0 < cycle -> 0 <= on <= cycle -> nonneg cs = true ->
+  snd (src_square_run (square_of nid cycle on 0) cs) = zrange (square_at nid cycle on) 0 (sumZ cs).
+Proof. exact source_square_chunk_invariant. Qed.
+Print Assumptions C01_source_square_chunk_invariant.
+
+Example C01_source_ex : wf (GGate 2 5 (GSquare 1 4 2)) = true /\ nonneg [3; 0; 6] = true /\
+  (exists st i, src_gate_run (GSquare 1 4 2) (gen_gate_init 2 5) (SLeaf 0) [3; 0; 6] =
+                Some (st, i, zrange (den (GGate 2 5 (GSquare 1 4 2))) 0 9)).
+Proof. exact source_ex. Qed.
